@@ -1184,6 +1184,7 @@ func c17Str(s string) string { return `"` + strings.ReplaceAll(s, `"`, `""`) + `
 type c17Tok struct {
 	m      map[string]string
 	inSums map[string]string // token -> digest, for the tokens printed inside sums tables
+	seenP1 map[string]bool   // part-1 texts already handed to the parser model for this case
 }
 
 // a value of a sums table: as val, and the token is remembered for k_toks
@@ -1243,7 +1244,7 @@ func (t *c17Tok) val(v string) string {
 	return v
 }
 
-func c17CoqTab(tk *c17Tok, t *c17Tab, elide bool) string {
+func c17CoqTab(tk *c17Tok, t *c17Tab, elide bool, base *c17Tab) string {
 	if !t.Decoded {
 		return `(mkTab None None false None None)`
 	}
@@ -1263,7 +1264,13 @@ func c17CoqTab(tk *c17Tok, t *c17Tab, elide bool) string {
 	if elide {
 		// the model never reads the text of a block whose signature fails; part 1 alone is
 		// kept (with the library's reading of it) for the sums parser
-		if t.TwoParts && len(t.Part1) < 400 && c17Printable(t.Part1) {
+		// (not when it is the case's own part 1 again: that one is parsed with the base table)
+		// (once per text and case, and not the case's own part 1 again: that one is parsed with the base table)
+		if t.TwoParts && len(t.Part1) < 400 && c17Printable(t.Part1) && !(base != nil && base.TwoParts && base.Part1 == t.Part1) && !tk.seenP1[t.Part1] {
+			if tk.seenP1 == nil {
+				tk.seenP1 = map[string]bool{}
+			}
+			tk.seenP1[t.Part1] = true
 			c17Count("sums_texts_of_failed_signature_blocks_to_the_parser_model", 1)
 			return fmt.Sprintf(`(mkTab (Some ("", "")) None false %s (Some %s))`, sums, c17Str(t.Part1))
 		}
@@ -1318,7 +1325,7 @@ func (*c17) CoqCase(ci, oi any) string {
 		} else if c17SameTab(&r.Tab, base) {
 			provs = append(provs, hx.CoqPair("None", c17CoqCheck(tk, r)))
 		} else {
-			provs = append(provs, hx.CoqPair("Some "+c17CoqTab(tk, &r.Tab, !r.SigOK), c17CoqCheck(tk, r)))
+			provs = append(provs, hx.CoqPair("Some "+c17CoqTab(tk, &r.Tab, !r.SigOK, base), c17CoqCheck(tk, r)))
 		}
 	}
 	for i, d := range c.Dls {
@@ -1347,7 +1354,7 @@ func (*c17) CoqCase(ci, oi any) string {
 		}
 		tab := "None" // library results of the provenance file served: those of the case's
 		if !c17SameTab(&r.Chk.Tab, base) {
-			tab = "Some " + c17CoqTab(tk, &r.Chk.Tab, !r.Chk.SigOK)
+			tab = "Some " + c17CoqTab(tk, &r.Chk.Tab, !r.Chk.SigOK, base)
 		}
 		dls = append(dls, hx.CoqPair(tab, fmt.Sprintf("mkDl %s %s %s %s %s %s", kind, hx.CoqBool(r.ChartOK), hx.CoqBool(r.ProvOK), c17CoqCheck(tk, &r.Chk),
 			hx.CoqBool(r.Err), hx.CoqOpt(c17Str(tk.val(r.Hash)), r.HasHash))))
@@ -1360,7 +1367,7 @@ func (*c17) CoqCase(ci, oi any) string {
 		r := &obs.Sigs[i]
 		tab := "None"
 		if !c17SameTab(&r.Res.Tab, base) {
-			tab = "Some " + c17CoqTab(tk, &r.Res.Tab, !r.Res.SigOK)
+			tab = "Some " + c17CoqTab(tk, &r.Res.Tab, !r.Res.SigOK, base)
 		}
 		sigs = append(sigs, hx.CoqPair(tab, c17CoqSig(tk, g, r)))
 	}
@@ -1400,11 +1407,11 @@ func (*c17) CoqCase(ci, oi any) string {
 		r := &obs.Files[i]
 		tab := "None"
 		if f.Prov == "file" && !c17SameTab(&r.Res.Tab, base) {
-			tab = "Some " + c17CoqTab(tk, &r.Res.Tab, !r.Res.SigOK)
+			tab = "Some " + c17CoqTab(tk, &r.Res.Tab, !r.Res.SigOK, base)
 		}
 		files = append(files, hx.CoqPair(tab, c17CoqFile(tk, f, r)))
 	}
-	baseTab := c17CoqTab(tk, base, false)
+	baseTab := c17CoqTab(tk, base, false, nil)
 	return fmt.Sprintf("mkCase %s %s %s %s %s %s %s %s", baseTab, hx.CoqList(checks), hx.CoqList(provs), hx.CoqList(dls), hx.CoqList(signs),
 		hx.CoqList(sigs), hx.CoqList(files), tk.coqToks())
 }
